@@ -8,3 +8,5 @@ import QV.Gen.Tables
 import QV.Drive.BExpJson
 import QV.Drive.CircJson
 import QV.Props.C09
+import QV.Model.Api
+import QV.Props.C10
